@@ -66,7 +66,7 @@ INDEX = [
     ("4d-16x3", 4, [0, 2], 3, 3, 10, 2, "thorough"),
 ]
 KS = [1, 2, 3, 5]
-RS = [0, 1, 2, 4, 5, 8, 9, 13, 16]
+RS = [0, 1, 2, 4, 5, 8, 9, 13, 16, 25, 36]
 ALLINV = "SortOK NearestOK KNearestOK KMonotone WithinOK Unique BoxOK"
 
 
@@ -81,7 +81,7 @@ def spatial_index(ctx, bins, thorough):
     # R1: theorems of the specification over every history in a bound, all grid queries
     rng = random.Random(ctx.seed)
     ctx.tlc("spatial/SpatialIndex.tla", "spatial/SpatialIndex_model.cfg", name="R1 SpatialIndex 2d, 9 lattice points, <=3 stored",
-            subst=index_subst(rng, 2, [0, 2, 4], 3, 3, 49, False, ALLINV), workers=4)
+            subst=index_subst(rng, 2, [0, 2, 4], 3, 3, 20, False, ALLINV), workers=4)
     ctx.tlc("spatial/SpatialIndex.tla", "spatial/SpatialIndex_model.cfg", name="R1 SpatialIndex 1d, 4 lattice points, <=5 stored",
             subst=index_subst(rng, 1, [0, 2, 4, 6], 4, 5, 16, False, ALLINV), workers=4)
     # R2: every history, replayed
@@ -96,6 +96,62 @@ def spatial_index(ctx, bins, thorough):
                        name="R2 replay index %s [%s]" % (name, bn))
 
 
+COMB_INVS = "BinomOK CombOK PermOK PermRankOK CartOK"
+
+
+def comb_subst(family, emit, invs, maxn=10, maxpn=8, maxpc=5040, dimvals="{1,2,3,4}", dimlen=4):
+    return dict(MAXN=maxn, MAXPN=maxpn, MAXPCOUNT=maxpc, MAXBINN=33, DIMVALS=dimvals, MAXDIMLEN=dimlen,
+                FAMILY=family, EMIT="TRUE" if emit else "FALSE", INVS=invs)
+
+
+def combin(ctx, bins, thorough):
+    # R1: the constructive enumerations are the declarative ones; rank/unrank inverse and monotone
+    ctx.tlc("combin/Combin.tla", "combin/Combin_model.cfg", name="R1 Combin theorems (n<=8 subsets, n<=6 permutations, dims<=3^3)",
+            subst=comb_subst("comb", False, COMB_INVS, maxn=8, maxpn=6, maxpc=720, dimvals="{1,2,3}", dimlen=3), workers=2)
+    ctx.tlc("combin/Combin.tla", "combin/Combin_model.cfg", name="R1 Combin Pascal rows 0..33",
+            subst=comb_subst("binom", False, "PascalOK"), workers=1)
+    fams = [("binom", comb_subst("binom", True, "EmitRow")),
+            ("comb", comb_subst("comb", True, "")),
+            ("perm", comb_subst("perm", True, "", maxpn=9 if thorough else 8, maxpc=40320 if thorough else 5040)),
+            ("cart", comb_subst("cart", True, ""))]
+    if thorough:
+        fams.append(("cart-wide", comb_subst("cart", True, "", dimvals="{1,2,5,10}", dimlen=4)))
+    for fam, sub in fams:
+        cases = ctx.gen("combin/Combin.tla", "combin/Combin_model.cfg", name="R2 gen combin " + fam, subst=sub)
+        for bn, b in bins.items():
+            ctx.replay(b, "combin", cases, [], name="R2 replay combin %s [%s]" % (fam, bn))
+
+
+def keep_trace(ctx, tr, name):
+    keep = os.path.join(HERE, "..", "..", "replays", "C20")
+    os.makedirs(keep, exist_ok=True)
+    dst = os.path.abspath(os.path.join(keep, "%s-seed%d.ndjson" % (name, ctx.seed)))
+    shutil.copy(tr, dst)
+    return dst
+
+
+def hilbert(ctx, bins, thorough):
+    runs = [("tables", ["news=1", "full=2:1,2:2,2:3,2:4,2:5,2:6,3:1,3:2,3:3,3:4,4:1,4:2,4:3",
+                        "win=2:31,3:20,4:15,2:16,3:10,4:8", "winlen=128"])]
+    if thorough:
+        runs += [("2d-7-8", ["full=2:7,2:8"]), ("3d-5", ["full=3:5"]), ("4d-4", ["full=4:4"]),
+                 ("windows", ["win=2:31,3:20,4:15,2:30,3:19,4:14,2:9,3:6,4:5", "winlen=1024"])]
+    for bn, b in bins.items():
+        for name, args in runs:
+            tr = os.path.join(ctx.work, "hilbert-%s-%s.ndjson" % (name, bn))
+            summ = ctx.record(b, "hilbert", tr, args, name="R3 record hilbert %s [%s]" % (name, bn))
+            ok, st = ctx.validate("curve/HilbertTrace.tla", "curve/HilbertTrace.cfg", tr,
+                                  name="R3 validate hilbert %s [%s]" % (name, bn))
+            if ok:
+                ctx.traces += summ.get("traces", 0)
+                ctx.cases += summ.get("traces", 0)
+                ctx.nontrivial += summ.get("traces", 0)
+            else:
+                dst = keep_trace(ctx, tr, "hilbert-%s-%s" % (name, bn))
+                ctx.violation("curve:hilbert:trace-rejected:%s" % name, st.get("detail", "")[:600],
+                              {"trace": dst, "spec": "curve/HilbertTrace.tla", "cfg_file": "curve/HilbertTrace.cfg", "cfg": {}})
+
+
 def run(ctx):
     os.makedirs(os.path.join(SPECS, "lib"), exist_ok=True)
     thorough = ctx.tier == "thorough"
@@ -104,6 +160,8 @@ def run(ctx):
         bins["noasm"] = ctx.build("noasm")
 
     spatial_index(ctx, bins, thorough)
+    combin(ctx, bins, thorough)
+    hilbert(ctx, bins, thorough)
 
     ctx.assumptions += [
         "TLC/SANY and the CommunityModules Json module are trusted",
